@@ -1496,6 +1496,86 @@ def run(chk):
                     chk.violation(r_wc, key, "the writer stores %s.%s (the control value of %s) in sWell[%s] (line %d), and the restart constructor restores that slot into %s: the target of one quantity comes back as the target of another" % ("pc" if kind == "prod" else "ic", c_, sorted(Cmap[kind][c_]), S, n["l"], sorted(want_p)), f["file"], n["l"])
     chk.extra["wellchain_links"] = dict(writer_slots=len(W), controls=len(Cmap["prod"]) + len(Cmap["inj"]), reader_fields=len(Rmap), restored=n_wc)
 
+    # ---- C05.groupchain: the same closure for group targets and limits
+    r_gc = chk.rule("C05.groupchain", "round-trip closure of the group targets and limits, every link taken from the code: the member P of GroupProductionProperties / GroupInjectionProperties (per injected phase) that the restart helpers of Group.cpp fill from RstGroup field F is the member whose control value (Group::productionControls / injectionControls: pc.c = eval(properties.P)) AggregateGroupData stores (sGrp[S] = f(cntl.c)) in the slot S that RstGroup reads F from - per phase for the injection limits (the writer's cntl is injectionControls(Phase::X), the restorer sets injection.phase = Phase::X)", floor=12)
+    gcx = chk.facts([OUT + "AggregateGroupData.cpp", RST + "group.cpp", "/repo/opm/input/eclipse/Schedule/Group/Group.cpp"])
+    GW = {}
+    for f in gcx.fns:
+        if not f.get("body") or not f["file"].endswith("AggregateGroupData.cpp"):
+            continue
+        kinds = {}
+        for n in walk(f["body"]):
+            if n["k"] == "Decl":
+                for v in n["vars"]:
+                    it = show(v.get("init")) if isinstance(v.get("init"), dict) else ""
+                    if ".productionControls(" in it:
+                        kinds[v["n"]] = "prod"
+                    m_ = re.search(r"\.injectionControls\((?:Opm::)?Phase::(\w+)", it)
+                    if m_:
+                        kinds[v["n"]] = "inj:" + m_.group(1)
+        if not kinds:
+            continue
+        for n in walk(f["body"]):
+            if n["k"] in ("Bin", "OpCall") and n.get("op") == "=" and (n.get("asg") or n["k"] == "OpCall"):
+                l_, r_ = (n.get("c") or n.get("a"))
+                m = re.fullmatch(r"sGrp\[(?:[\w:]*::)?(\w+)\]", show(strip(l_)))
+                if not m:
+                    continue
+                for x in walk(r_):
+                    if x["k"] == "Mem" and isinstance(x.get("b"), dict) and strip(x["b"]).get("k") == "Ref" and strip(x["b"])["n"] in kinds:
+                        GW.setdefault(m.group(1), set()).add((kinds[strip(x["b"])["n"]], x["n"], n["l"]))
+    GC = {"prod": {}, "inj": {}}
+    for f in gcx.fns:
+        if f["n"] not in ("productionControls", "injectionControls") or not f.get("body") or not f["file"].endswith("Group/Group.cpp"):
+            continue
+        kind = "prod" if f["n"] == "productionControls" else "inj"
+        for n in walk(f["body"]):
+            if n["k"] in ("Bin", "OpCall") and n.get("op") == "=" and (n.get("asg") or n["k"] == "OpCall"):
+                l_, r_ = (n.get("c") or n.get("a"))
+                l_ = strip(l_)
+                if l_.get("k") == "Mem" and strip(l_.get("b") or {}).get("k") == "Ref":
+                    mem = [x["n"] for x in walk(r_) if x["k"] == "Mem" and "UDAValue" in (x.get("t") or "")]
+                    if len(mem) == 1:
+                        GC[kind].setdefault(l_["n"], set()).add(mem[0])
+    GR = {}
+    for f in gcx.fns:
+        if f["n"] == "RstGroup" and f["file"].endswith("rst/group.cpp") and f.get("inits"):
+            for i_ in f["inits"]:
+                sl = [x for x in walk(i_["init"]) if x["k"] in ("Idx", "OpCall") and show(strip((x.get("c") or x.get("a") or [{}])[0])) == "sgrp"]
+                if len(sl) == 1:
+                    GR.setdefault(i_["member"], set()).add(show(strip((sl[0].get("c") or sl[0].get("a"))[1])).split("::")[-1])
+    restorers = [f for f in gcx.fns if f["n"] in ("make_production_properties", "make_injection_properties") and f.get("body") and f["file"].endswith("Group/Group.cpp")]
+    if len(restorers) < 3 or len(GW) < 12 or len(GC["prod"]) < 4 or len(GC["inj"]) < 4 or len(GR) < 12:
+        raise core.AnalysisBroken("C05.groupchain: links not found (restorers %d, writer slots %d, controls %d/%d, reader fields %d)" % (len(restorers), len(GW), len(GC["prod"]), len(GC["inj"]), len(GR)))
+    n_gc = 0
+    for f in restorers:
+        rparam = [p_["n"] for p_ in f["params"] if "RstGroup" in (p_.get("t") or "")][0]
+        if f["n"] == "make_production_properties":
+            kind = "prod"
+        else:
+            ph = [strip(x["c"][1]).get("n") for x in walk(f["body"]) if x["k"] == "Bin" and x.get("asg") and x["op"] == "=" and show(strip(x["c"][0])).endswith(".phase") and strip(x["c"][1]).get("d") == "Enum"]
+            if len(ph) != 1:
+                raise core.AnalysisBroken("make_injection_properties: the phase of the restored properties was not found")
+            kind = "inj:" + ph[0]
+        for n in walk(f["body"]):
+            if not (n["k"] == "OpCall" and n.get("op") == "()" and len(n.get("a") or []) == 3 and strip(n["a"][1]).get("k") == "Mem"):
+                continue
+            tgt, src = strip(n["a"][1]), n["a"][2]
+            flds = [x["n"] for x in walk(src) if x["k"] == "Mem" and strip(x.get("b") or {}).get("k") == "Ref" and strip(x["b"])["n"] == rparam]
+            if len(flds) != 1 or flds[0] not in GR:
+                continue
+            P, F = tgt["n"], flds[0]
+            slots = GR[F]
+            base_kind = kind.split(":")[0]
+            cands = {m for S in slots for (k_, c_, _l) in GW.get(S, ()) if k_ == kind for m in GC[base_kind].get(c_, ())}
+            n_gc += 1
+            key = "%s:%s<-%s" % (kind, P, F)
+            chk.instance(r_gc, key, sample=dict(restored_member=P, of=kind, from_field=F, field_read_from_slot=sorted(slots), slot_written_from=sorted("%s.%s" % (k_, c_) for S in slots for (k_, c_, _l) in GW.get(S, ())), those_controls_come_from=sorted(cands)))
+            if P not in cands:
+                chk.violation(r_gc, key, "Group restart (%s, %s): member %s is filled from RstGroup::%s, which is read from slot %s; the writer stores %s there, i.e. the member%s %s of %s: after a restart %s holds the limit of another quantity or phase" % (f["n"], kind, P, F, sorted(slots), sorted("%s.%s" % (k_, c_) for S in slots for (k_, c_, _l) in GW.get(S, ())) or "nothing", "" if len(cands) == 1 else "s", sorted(cands) or "(none)", kind, P), f["file"], n["l"])
+    # per writer site: a slot restored into member P of kind k receives the control of P of the same kind
+    chk.extra["groupchain_links"] = dict(writer_slots=len(GW), reader_fields=len(GR), restored=n_gc)
+
     # ---- C05.fpindex: cell property arrays are read at an index of their own kind
     r_fi = chk.rule("C05.fpindex", "outside FieldProps, an array taken from FieldPropsManager::get_int/get_double/get_copy/try_get (one entry per ACTIVE cell) is subscripted with an active index and one from get_global_int/get_global_double with a global index - where the index comes from is followed through locals: cell.active_index(), activeIndex(...), getActiveIndex(...) are active, .global_index / getGlobalIndex(...) / a *global_index* member are global (the restart constructor of Connection looks the saturation table of a defaulted connection up this way)", floor=8)
     from verif import fpindex
